@@ -113,6 +113,12 @@ theorem step_next (B : BTables) (s : BState) (c : Call) :
     cases i with
     | none => exact Or.inl rfl
     | some i => simp only [BState.step]; split <;> exact Or.inl rfl
+  | selectByName nm =>
+    simp only [BState.step]
+    split
+    · split <;> exact Or.inl rfl
+    · exact Or.inl rfl
+    · exact Or.inl rfl
   | selectBlock i =>
     cases i with
     | none => exact Or.inl rfl
@@ -262,7 +268,7 @@ theorem C13_nodup_run (B : BTables) : ∀ (reqs : List (Nat × List Operand)) (s
 /-- non-vacuity: the same request twice returns the same id and adds one declaration; a different request gets a
 different id -/
 example :
-    (BState.run ⟨54, 56, 55, 248, 4, 58, 0, 0⟩ BState.new [.typeRequest 21 none [.w 59 32, .w 59 0], .typeRequest 21 none [.w 59 32, .w 59 0],
+    (BState.run ⟨54, 56, 55, 248, 5, 4, 58, 0, 0⟩ BState.new [.typeRequest 21 none [.w 59 32, .w 59 0], .typeRequest 21 none [.w 59 32, .w 59 0],
       .typeRequest 21 none [.w 59 32, .w 59 1]]).2 = [.id 1, .id 1, .id 2] := by
   decide
 
